@@ -326,7 +326,7 @@ def gen_history(rng, nops, files=(1,), backend="BE", big=False, wide=False, path
             lines.append("reopen %d %s" % (f, md)); mode[f] = md
         else:
             # the malformed stream: duplicate / empty / over-long / slashed names, unknown handles, bad ranges
-            k = rng.randint(0, 10)
+            k = rng.randint(0, 11)
             if k == 7 and len(nonroot) > 2:
                 # a move onto a name the new parent already has: refused, nothing changes
                 pairs = [(u, v) for u in nonroot for v in nonroot if u != v and m.nodes[u]["name"] == m.nodes[v]["name"]
@@ -374,6 +374,32 @@ def gen_history(rng, nops, files=(1,), backend="BE", big=False, wide=False, path
                     lines.append("label %d %d %s" % (f, w, hx(b"Short")))
                     lines.append("lookup %d %d %s" % (f, p, hx(full[:31])))
                     lines.append("lookup %d %d %s" % (f, p, hx(full)))
+            elif k == 11 and nonroot and not ro:
+                # delete / rename / move with a parent that is not the node's parent: refused, nothing changes -- also when the
+                # wrong parent has a child of the node's name (the call must not reach that child either)
+                u = rng.choice(nonroot); nm = m.nodes[u]["name"]
+                cands = [x for x in alive if x != m.nodes[u]["parent"] and x not in m.subtree(u) and m.depth(x) < 6]
+                if cands:
+                    same = [x for x in cands if nm in {m.nodes[c]["name"] for c in m.kids(x)}]
+                    if same and rng.random() < 0.7:
+                        x = rng.choice(same)
+                    else:
+                        x = rng.choice(cands)
+                        if rng.random() < 0.5 and nm not in {m.nodes[c]["name"] for c in m.kids(x)}:
+                            w = m.next; m.next += 1
+                            lines.append("create %d %d %d %s" % (f, x, w, hx(nm)))
+                            m.nodes[w] = dict(parent=x, name=nm, dt="MT", dims=[], written=False)
+                    how = rng.randint(0, 2)
+                    if how == 0:
+                        lines.append("delete %d %d %d" % (f, x, u))
+                    elif how == 1:
+                        lines.append("rename %d %d %d %s" % (f, x, u, hx(b"Wrong_parent_%d" % (i % 97))))
+                    else:
+                        others = [y for y in alive if y not in m.subtree(u) and y != x and m.depth(y) < 6]
+                        lines.append("move %d %d %d %d" % (f, x, u, rng.choice(others) if others else 0))
+                    for q in (x, m.nodes[u]["parent"]):
+                        lines.append("nchild %d %d" % (f, q)); lines.append("names %d %d 1 %d" % (f, q, len(m.kids(q)) + 2))
+                    lines.append("lookup %d 0 %s" % (f, hx(m.path(u))))
             elif k == 0 and nonroot:
                 u = rng.choice(nonroot); p = m.nodes[u]["parent"]
                 lines.append("create %d %d %d %s" % (f, p, 4000 + i % 90, hx(m.nodes[u]["name"])))
@@ -439,6 +465,73 @@ def gen_wide_rename(rng, backend="BE", path="F1.cgns"):
     lines.append("reopen 1 r")
     lines.append("nchild 1 1")
     lines.append("names 1 1 1 %d" % (n + 1))
+    lines.append("closef 1")
+    return lines
+
+
+def gen_wrong_parent(rng, backend="BE", path="F1.cgns"):
+    """directed history: delete / rename / move of a node with a parent argument that is NOT its parent -- a stranger, a
+    node that has a child of the same name, the node's grandparent, one of its own children.  Every such call is refused and
+    nothing changes: both parents and the node are listed after each attempt and after a reopen"""
+    lines = ["file 1 %s %s w" % (path, backend)]
+    names, parent, nxt = {}, {}, 1
+    def mk(p, nm=None):
+        nonlocal nxt
+        u = nxt; nxt += 1
+        nm = nm or rand_name(rng, {names[c] for c in names if parent[c] == p})
+        names[u] = nm; parent[u] = p
+        lines.append("create 1 %d %d %s" % (p, u, hx(nm)))
+        return u
+    tops = [mk(0) for _ in range(rng.randint(3, 5))]
+    mids = [mk(rng.choice(tops)) for _ in range(rng.randint(4, 8))]
+    leaves = [mk(rng.choice(mids)) for _ in range(rng.randint(3, 6))]
+    def path_of(u):
+        segs = []
+        while u != 0:
+            segs.append(names[u]); u = parent[u]
+        return b"/" + b"/".join(reversed(segs))
+    def kids(p):
+        return [c for c in names if parent[c] == p]
+    def look(ps, u):
+        for q in ps:
+            lines.append("nchild 1 %d" % q); lines.append("names 1 %d 1 %d" % (q, len(kids(q)) + 2))
+        lines.append("lookup 1 0 %s" % hx(path_of(u)))
+    for rnd in range(rng.randint(6, 10)):
+        u = rng.choice(mids + leaves)
+        kind = rng.randint(0, 3)
+        if kind == 0:      # a stranger that has a child of the same name
+            cands = [x for x in tops + mids if x != parent[u] and x != u and parent.get(x) != u and
+                     names[u] not in {names[c] for c in kids(x)}]
+            if not cands:
+                continue
+            x = rng.choice(cands); w = mk(x, names[u])
+            lines.append("label 1 %d %s" % (w, hx(b"Other_t")))
+        elif kind == 1:    # a stranger without such a child
+            cands = [x for x in tops + mids if x != parent[u] and x != u and parent.get(x) != u]
+            x = rng.choice(cands)
+        elif kind == 2:    # the grandparent (or the root for a child of a top node's child)
+            x = parent[parent[u]] if parent[u] != 0 else 0
+            if x == parent[u]:
+                continue
+        else:              # one of its own children
+            ks = kids(u)
+            if not ks:
+                continue
+            x = rng.choice(ks)
+        how = rng.randint(0, 2)
+        if how == 0:
+            lines.append("delete 1 %d %d" % (x, u))
+        elif how == 1:
+            lines.append("rename 1 %d %d %s" % (x, u, hx(b"Wrong_parent_%d" % rnd)))
+        else:
+            others = [y for y in [0] + tops if y != x and y != parent[u]]
+            lines.append("move 1 %d %d %d" % (x, u, rng.choice(others)))
+        look([x, parent[u]] + ([0] if how == 2 else []), u)
+    lines.append("reopen 1 r")
+    for q in [0] + tops + mids:
+        lines.append("nchild 1 %d" % q); lines.append("names 1 %d 1 %d" % (q, len(kids(q)) + 2))
+    for u in mids + leaves:
+        lines.append("lookup 1 0 %s" % hx(path_of(u)))
     lines.append("closef 1")
     return lines
 
